@@ -266,7 +266,7 @@ ADDENDA2 = {
     "C12": " Added: D5.warm (the lazy build of the wavelet matrix in const methods is guarded by the size test alone: the documented warm-up contract).",
     "C03": " Added: D8.params (shared with C02-D5).",
     "C05": " Added: D8.wavelet (value / derivative pairing of the wavelet rule: piecewise closed forms for order 1, chain rule over the uninterpreted table interpolation for order 3 with a table of justified shortcuts, interpolate<1> == d/dx interpolate<0>).",
-    "C10": " Added: D8.kinds (as C04-D13), D10.canonical (points that went through formCanonicalPoints are never handed to another API method), D9.extent (in-place corrections of output buffers run over the extent the sizing overload gives the buffer).",
+    "C10": " Added: D8.kinds (as C04-D13), D10.canonical (points that went through formCanonicalPoints are never handed to another API method), D9.extent (in-place corrections of output buffers run over the extent the sizing overload gives the buffer), D11.conformal (symbolic fold of the three conformal (asin) routines for truncations 0..5: forward map = Maclaurin polynomial of asin normalised at 1, inverse = Newton iteration on that polynomial with its derivative series and the step r/(dr/dx), weight factor = Jacobian of the forward map, also at x = 0).",
     "C02": " Added: D8.independent (linear scale and conformal correction of integrate()/getQuadratureWeights() never depend on each other, shared with C10-D6), D10.quadsize (the Gauss-Legendre rule behind the Sequence basis integrals is sized after the reduction over all directions), D9.workset (the set behind getGlobalPolynomialSpace is the set the weights are computed for, shared with C03-D4).",
     "C01": " D4.tree also covers dropping the needed points of a grid without loaded points (F86). Added: D11.ancestors (known finding F92); D10.restart (dependence analysis of the GMRES restart loop: every cycle starts from the residual of the current iterate, the iterate changes only through the Krylov reconstruction, F88).",
     "C04": " D6.tree as in C01 (F86). Added: D11.restart (as C01-D10, F88: the transposed solve behind the weights), D12.vandermonde (entries of the Kronecker 1-D matrices are values of the basis evaluate() uses), D14.diffweights (product rule of the Sequence / Global / Fourier differentiation weights folded symbolically), D15.canonical (canonical coordinates are consumed by the grid object only, shared with C10-D10), D13.kinds (kind inference: nodal weights pair with nodal values, basis integrals with hierarchical coefficients in every integrate()).",
